@@ -13,8 +13,8 @@ from pyvc import values as V
 from pyvc import logic
 from pyvc.logic import Forall, Exists, ForallExists
 from pyvc.state import State
-from pyvc.contract import FnContract, Def, DefHeap, DefRes, Clause, ExcCase, apply_contract
-from pyvc.execute import Exc, Outcome, FieldRef
+from pyvc.contract import FnContract, Def, DefHeap, DefRes, Clause, ExcCase, Structural, apply_contract
+from pyvc.execute import Exc, Outcome, FieldRef, VTimeout, VGen
 from pyvc.values import Num, VObj, VBool, VStr, VOpaque, VNone, NONE, SList, Unsupported
 from pyvc.lib_base import LibBase
 
@@ -165,6 +165,36 @@ class StoreLib(LibBase):
         if p["ready"]:
             Rd, Ri = f[RD], f[RI]
             out.append(("I-bind.len", Ri.len == Re.len, ("C02",)))
+            itobj = (lambda x: x.items[0]) if p["tuple"] else (lambda x: x)
+            if assume:
+                grd = z3.Function("inv_%s!%d" % (RD, _ctr()), z3.IntSort(), z3.IntSort())
+                git = z3.Function("inv_%s!%d" % (ITEMS, _ctr()), z3.IntSort(), z3.IntSort())
+                itag = z3.Function("itag!%d" % _ctr(), z3.IntSort(), z3.IntSort())
+                st.ghost["inv_rd"] = grd
+                st.ghost["inv_it"] = git
+                out.append(("I-items.nodup.Rd", V.forall_idx(Rd, lambda i, x: z3.And(grd(x.t) == i, itag(x.t) == 1),
+                                                              "nodup.Rd"), ("C02",)))
+                out.append(("I-items.nodup.It", V.forall_idx(It, lambda i, x: z3.And(git(itobj(x).t) == i,
+                                                                                    itag(itobj(x).t) == 2),
+                                                              "nodup.It"), ("C02",)))
+                out.append(("I-bind.member", V.forall_idx(Ri, lambda i, x: z3.And(
+                    0 <= grd(x.t), grd(x.t) < Rd.len, Rd.at(grd(x.t)).t == x.t), "bind.member"), ("C02",)))
+            else:
+                out.append(("I-items.nodup.Rd", V.forall_idx2(Rd, Rd, lambda i, j, a, b: a.t != b.t, "nodup.Rd",
+                                                               strict_lt=True), ("C02",)))
+                out.append(("I-items.nodup.It", V.forall_idx2(It, It, lambda i, j, a, b: itobj(a).t != itobj(b).t,
+                                                               "nodup.It", strict_lt=True), ("C02",)))
+                out.append(("I-items.nodup.It/Rd", V.forall_idx2(It, Rd, lambda i, j, a, b: itobj(a).t != b.t,
+                                                                  "nodup.It/Rd"), ("C02",)))
+                out.append(("I-bind.member", ForallExists(
+                    lambda i: z3.And(0 <= i, i < Ri.len),
+                    lambda i, j: z3.And(0 <= j, j < Rd.len, Rd.at(j).t == Ri.at(i).t), Rd.len, "bind.member"),
+                    ("C02",)))
+            out.append(("I-bind.distinct", V.forall_idx2(Ri, Ri, lambda i, j, a, b: a.t != b.t, "bind.distinct",
+                                                          strict_lt=True), ("C02",)))
+            fifo = self.is_fifo(cls, st)
+            out.append(("I-bind.fifo", V.forall_idx(Ri, lambda i, x: z3.Implies(
+                fifo, z3.And(i < Rd.len, x.t == Rd.at(i).t)), "bind.fifo"), ("C06",)))
         # I-trig
         out.append(("I-trig.Qp", V.forall_idx(Qp, lambda i, e: z3.Not(trig(st, e.t)), "I-trig.Qp"), ("C04", "C07")))
         out.append(("I-trig.Rp", V.forall_idx(Rp, lambda i, e: trig(st, e.t), "I-trig.Rp"), ("C04", "C07")))
@@ -221,6 +251,40 @@ class StoreLib(LibBase):
             def body(i, j, a, b):
                 return a.t < b.t
         return V.forall_idx2(q, q, body, "I-ord", strict_lt=True)
+
+    def put_extra(self, cls, c):
+        return []
+
+    def put_extra_mods(self, cls):
+        return ()
+
+    def put_extra_heap(self, cls):
+        return ()
+
+    def ghost_owner_pos(self, st, x):
+        """position in reserved_items of the reservation owning item x (Skolem function of the LIFO clause)"""
+        if "owner_pos" not in st.ghost:
+            st.ghost["owner_pos"] = z3.Function("owner_pos!%d" % _ctr(), z3.IntSort(), z3.IntSort())
+        return st.ghost["owner_pos"](x)
+
+    def expected_timeout(self, cls, con, ordinal, args, st):
+        p = PROFILES[cls]
+        if p["mover"] and not p["belt"] and con.name == "move_to_ready_items":
+            return ("item-delay", args["item"].items[1].t, ("C11",))
+        return None
+
+    def rely_stable(self, cls):
+        """fields no other process ever writes (frame obligation)"""
+        return ("capacity", "mode", "delay", "transit_delay", "trigger_delay")
+
+    def is_fifo(self, cls, st):
+        p = PROFILES[cls]
+        if p["lifo"]:
+            return st.f["mode"].t == z3.IntVal(V.str_const("FIFO"))
+        return z3.BoolVal(True)
+
+    def pos_rd(self, st, x):
+        return st.ghost["inv_rd"](x)
 
     def grantable_put(self, cls, st):
         p = PROFILES[cls]
@@ -499,6 +563,237 @@ class StoreLib(LibBase):
                 modifies=(ITEMS, RG, RE, QP, RP) + avg_mods, heap_modifies=("triggered",), result_kind=IT,
                 props=("C02", "C06", "C07"))
 
+        if p["ready"]:
+            itobj = (lambda x: x.items[0]) if p["tuple"] else (lambda x: x)
+
+            # ---- _do_reserve_get (explicit binding)
+            def post_do_rg_ready(c):
+                o, n = c.old, c.new
+                e = c.args["event"]
+                g = lib.grantable_get(cls, o)
+                Rd, Ri = o.f[RD], o.f[RI]
+                fifo = lib.is_fifo(cls, o)
+                items = [
+                    Def(RG, V.ite(g, V.list_append(o.f[RG], e), o.f[RG]), ("C02", "C04")),
+                    Def(RE, V.ite(g, V.list_append(o.f[RE], e), o.f[RE]), ("C02", "C04")),
+                    DefHeap("triggered", z3.If(g, z3.Store(o.heap_arr("triggered"), e.t, True),
+                                               o.heap_arr("triggered")), ("C02", "C04")),
+                    Clause("Ri-len", lambda c: n.f[RI].len == Ri.len + z3.If(g, 1, 0), ("C02",)),
+                    Clause("Ri-prefix", lambda c: V.forall_idx(Ri, lambda i, x: n.f[RI].at(i).t == x.t, "Ri-prefix"),
+                           ("C02",)),
+                    # FIFO (statement C06): the new reservation owns the oldest ready item not yet owned
+                    Clause("fifo-binds-next-oldest", lambda c: z3.Implies(z3.And(g, fifo),
+                           n.f[RI].at(Ri.len).t == Rd.at(Ri.len).t), ("C06", "C02")),
+                ]
+                # every profile (statement C02): the bound item is a ready item that no other reservation owns
+                newit = lambda c: n.f[RI].at(Ri.len).t
+                items.append(Clause("binds-a-ready-item", lambda c: z3.Implies(g, z3.And(
+                    0 <= lib.pos_rd(o, newit(c)), lib.pos_rd(o, newit(c)) < Rd.len,
+                    Rd.at(lib.pos_rd(o, newit(c))).t == newit(c))), ("C02",)))
+                items.append(Clause("binds-an-unowned-item", lambda c: V.forall_idx(
+                    Ri, lambda i, x: z3.Implies(g, x.t != newit(c)), "unowned"), ("C02",)))
+                if p["lifo"]:
+                    # LIFO (statement C06): the most recently available item that no reservation owns:
+                    # every ready item behind it (newer) is owned already
+                    items.append(Clause("lifo-binds-newest-unowned", lambda c: Forall(1, lambda j: z3.Implies(
+                        z3.And(g, z3.Not(fifo), lib.pos_rd(o, newit(c)) < j, j < Rd.len),
+                        z3.And(0 <= lib.ghost_owner_pos(o, Rd.at(j).t), lib.ghost_owner_pos(o, Rd.at(j).t) < Ri.len,
+                               Ri.at(lib.ghost_owner_pos(o, Rd.at(j).t)).t == Rd.at(j).t)), [Rd.len], "lifo-newest"),
+                        ("C06",)))
+                return items
+            C["_do_reserve_get"] = FnContract(
+                "_do_reserve_get", [("event", EV, None)],
+                pre=lambda st, args: [("event-untriggered", z3.Not(trig(st, args["event"].t)))],
+                post=post_do_rg_ready, uses_inv=True, keeps_inv=False, inv_skip=skip,
+                modifies=(RG, RE, RI), heap_modifies=("triggered",), result_kind=("bool",), props=("C02", "C04", "C06"))
+
+            # ---- _do_put / _trigger_put / put
+            def put_core_r(c):
+                o, n = c.old, c.new
+                e = c.args["put_event"].t
+                x = c.args["item"]
+                return [
+                    Def(RP, V.list_pop(o.f[RP], lib.pos(o, RP, e)), ("C01", "C07")),
+                    Def(ITEMS, V.list_append(o.f[ITEMS], x), ("C01", "C02")),
+                    Clause("result-truthy", lambda c: V.truth(c.res), ("C01",)),
+                ] + avg_items(c, held(o, p) + 1) + lib.put_extra(cls, c) + ([Structural(
+                    "spawns-exactly-one-mover-for-the-item",
+                    lambda c: _spawn_ok(c, "move_to_ready_items", "item", c.args["item"]), ("C11", "C01"))]
+                    if p["mover"] else [])
+
+            def put_pre_r(st, args):
+                x = itobj(args["item"]).t
+                pre = [("A-distinct.not-in-transit", V.forall_idx(st.f[ITEMS], lambda i, y: itobj(y).t != x, "A-distinct.It")),
+                       ("A-distinct.not-ready", V.forall_idx(st.f[RD], lambda i, y: y.t != x, "A-distinct.Rd"))]
+                if p["tuple"]:
+                    pre.append(("delay-nonneg", args["item"].items[1].t >= 0))
+                return pre
+            put_mods = (RP, ITEMS) + avg_mods + lib.put_extra_mods(cls)
+            C["_do_put"] = FnContract(
+                "_do_put", [("put_event", EV, None), ("item", item_kind, None)], pre=put_pre_r,
+                post=put_core_r, excs=put_excs(), normal_requires=put_requires,
+                uses_inv=True, keeps_inv=False, modifies=put_mods, heap_modifies=lib.put_extra_heap(cls),
+                result_kind=("bool",), props=("C01", "C07"))
+            C["_trigger_put"] = FnContract(
+                "_trigger_put", [("put_event", EV, None), ("item", item_kind, None)],
+                pre=lambda st, args: [("reservations-nonempty", st.f[RP].len > 0)] + put_pre_r(st, args),
+                post=put_core_r, excs=put_excs(), normal_requires=put_requires,
+                uses_inv=True, keeps_inv=False, modifies=put_mods, heap_modifies=lib.put_extra_heap(cls),
+                result_kind=("bool",), props=("C01", "C07"))
+
+            def post_put_r(c):
+                o, n = c.old, c.new
+                items = put_core_r(c)
+                # the trigger after a put may grant nothing new (ready_items did not change) but is allowed to run
+                kg = c.ghost("kg", lambda: n.f[RG].len - o.f[RG].len)
+                pref = V.list_slice_to(o.f[QG], kg)
+                items += [
+                    Clause("kg-range", lambda c: z3.And(0 <= kg, kg <= o.f[QG].len), ("C04",)),
+                    Def(QG, V.list_slice_from(o.f[QG], kg), ("C04", "C05")),
+                    Def(RG, V.list_concat(o.f[RG], pref), ("C04", "C05")),
+                    Def(RE, V.list_concat(o.f[RE], pref), ("C02",)),
+                    Clause("Ri-len", lambda c: n.f[RI].len == o.f[RI].len + kg, ("C02",)),
+                    Clause("Ri-prefix", lambda c: V.forall_idx(o.f[RI], lambda i, x: n.f[RI].at(i).t == x.t, "Ri-prefix"),
+                           ("C02",)),
+                ]
+                return items
+            C["put"] = FnContract(
+                "put", [("put_event", EV, None), ("item", item_kind, None)], pre=put_pre_r, post=post_put_r,
+                excs=put_excs(), normal_requires=put_requires, modifies=put_mods + (QG, RG, RE, RI),
+                heap_modifies=("triggered",) + lib.put_extra_heap(cls), result_kind=("bool",),
+                props=("C01", "C02", "C07"))
+
+            # ---- _do_get / _trigger_get / get
+            def get_core_r(c):
+                o = c.old
+                e = c.args["get_event"].t
+                q = lib.pos(o, RG, e)
+                x = o.f[RI].at(q)
+                return [
+                    DefRes(x, ("C02", "C06")),
+                    Def(RD, V.list_pop(o.f[RD], lib.pos_rd(o, x.t)), ("C02",)),
+                    Def(RI, V.list_pop(o.f[RI], q), ("C02",)),
+                    Def(RG, V.list_pop(o.f[RG], q), ("C02", "C07")),
+                    Def(RE, V.list_pop(o.f[RE], q), ("C02",)),
+                ] + avg_items(c, held(o, p) - 1)
+
+            def get_excs_r():
+                return [ExcCase("RuntimeError", lambda c: z3.Not(owns(c.old, RG, c.args["get_event"].t)),
+                                "no-valid-reservation", unchanged=True, props=("C07",))]
+
+            def get_requires_r(c):
+                return owns(c.old, RG, c.args["get_event"].t)
+            get_mods = (RD, RI, RG, RE) + avg_mods
+            C["_do_get"] = FnContract(
+                "_do_get", [("get_event", EV, None)], post=get_core_r, excs=get_excs_r(),
+                normal_requires=get_requires_r, uses_inv=True, keeps_inv=False, modifies=get_mods,
+                result_kind=IT, props=("C02", "C07"))
+            C["_trigger_get"] = FnContract(
+                "_trigger_get", [("get_event", EV, None)],
+                pre=lambda st, args: [("reservations-nonempty", st.f[RG].len > 0)],
+                post=get_core_r, excs=get_excs_r(), normal_requires=get_requires_r,
+                uses_inv=True, keeps_inv=False, modifies=get_mods, result_kind=IT, props=("C02", "C07"))
+
+            def post_get_r(c):
+                o, n = c.old, c.new
+                items = get_core_r(c)
+                kp = c.ghost("kp", lambda: n.f[RP].len - o.f[RP].len)
+                pref = V.list_slice_to(o.f[QP], kp)
+                items += [
+                    Clause("kp-range", lambda c: z3.And(0 <= kp, kp <= o.f[QP].len), ("C04",)),
+                    Def(QP, V.list_slice_from(o.f[QP], kp), ("C04", "C05")),
+                    Def(RP, V.list_concat(o.f[RP], pref), ("C04", "C05")),
+                ]
+                return items
+            C["get"] = FnContract(
+                "get", [("get_event", EV, None)], post=post_get_r, excs=get_excs_r(),
+                normal_requires=get_requires_r, modifies=get_mods + (QP, RP), heap_modifies=("triggered",),
+                result_kind=IT, props=("C02", "C06", "C07"))
+
+            # ---- reserve_get_cancel (explicit binding)
+            def post_rgc_r(c):
+                o, n = c.old, c.new
+                e = c.args["get_event_to_cancel"].t
+                inq = lib.is_in(o, QG, e)
+                cidx = lib.pos(o, RG, e)
+                Rd, Ri = o.f[RD], o.f[RI]
+                nres = o.f[RE].len
+                fifo = lib.is_fifo(cls, o)
+                released = Ri.at(cidx)
+                rpos = lib.pos_rd(o, released.t)
+                # statement (C06), FIFO: still-reserved items first (order kept), then the released item, then the
+                # never-reserved ones in their old order.  Under I-bind.fifo the reserved block is Rd[:nres].
+                moved_fifo = V.list_concat(V.list_append(V.list_pop(V.list_slice_to(Rd, nres), cidx), released),
+                                           V.list_slice_from(Rd, nres))
+                # LIFO: the released item goes back on top of the stack (ahead of every never-reserved item)
+                moved_lifo = V.list_append(V.list_pop(Rd, rpos), released)
+                moved = V.ite(fifo, moved_fifo, moved_lifo)
+                q1 = V.ite(inq, V.list_pop(o.f[QG], lib.pos(o, QG, e)), o.f[QG])
+                g1 = V.ite(inq, o.f[RG], V.list_pop(o.f[RG], cidx))
+                e1 = V.ite(inq, o.f[RE], V.list_pop(o.f[RE], cidx))
+                i1 = V.ite(inq, Ri, V.list_pop(Ri, cidx))
+                k = c.ghost("k", lambda: n.f[RG].len - g1.len)
+                pref = V.list_slice_to(q1, k)
+                return [
+                    Clause("k-range", lambda c: z3.And(0 <= k, k <= q1.len), ("C04",)),
+                    Def(RD, V.ite(inq, Rd, moved), ("C02", "C06")),
+                    Def(QG, V.list_slice_from(q1, k), ("C05", "C07")),
+                    Def(RG, V.list_concat(g1, pref), ("C05", "C07")),
+                    Def(RE, V.list_concat(e1, pref), ("C02",)),
+                    Clause("Ri-len", lambda c: n.f[RI].len == i1.len + k, ("C02",)),
+                    Clause("Ri-prefix", lambda c: V.forall_idx(i1, lambda i, x: n.f[RI].at(i).t == x.t, "Ri-prefix"),
+                           ("C02",)),
+                    Clause("result-truthy", lambda c: V.truth(c.res), ("C07",)),
+                ]
+            C["reserve_get_cancel"] = FnContract(
+                "reserve_get_cancel", [("get_event_to_cancel", EV, None)], post=post_rgc_r,
+                excs=[ExcCase("RuntimeError",
+                              lambda c: z3.Not(z3.Or(lib.is_in(c.old, QG, c.args["get_event_to_cancel"].t),
+                                                     lib.is_in(c.old, RG, c.args["get_event_to_cancel"].t))),
+                              "unknown-token", unchanged=True, props=("C07",))],
+                normal_requires=lambda c: z3.Or(lib.is_in(c.old, QG, c.args["get_event_to_cancel"].t),
+                                                lib.is_in(c.old, RG, c.args["get_event_to_cancel"].t)),
+                modifies=(RD, RI, QG, RG, RE), heap_modifies=("triggered",), result_kind=("bool",),
+                props=("C02", "C04", "C05", "C06", "C07"))
+
+        if p["mover"] and not p["belt"]:
+            def mover_entry(st, args):
+                x = args["item"]
+                gi = st.ghost["inv_it"]
+                k = gi(itobj(x).t)
+                return [("rely.item-in-transit", z3.And(0 <= k, k < st.f[ITEMS].len, V.eq(st.f[ITEMS].at(k), x))),
+                        ("delay-nonneg", x.items[1].t >= 0)]
+
+            def post_mover(c):
+                o, n = c.old, c.new      # o = state at the last resumption
+                x = c.args["item"]
+                k = o.ghost["inv_it"](itobj(x).t)
+                rd1 = V.list_append(o.f[RD], itobj(x))
+                kg = c.ghost("kg", lambda: n.f[RG].len - o.f[RG].len)
+                kp = c.ghost("kp", lambda: n.f[RP].len - o.f[RP].len)
+                pg = V.list_slice_to(o.f[QG], kg)
+                pp = V.list_slice_to(o.f[QP], kp)
+                return [
+                    Def(ITEMS, V.list_pop(o.f[ITEMS], k), ("C02", "C11")),
+                    Def(RD, rd1, ("C02", "C11", "C06")),
+                    Clause("kg-range", lambda c: z3.And(0 <= kg, kg <= o.f[QG].len), ("C04",)),
+                    Clause("kp-range", lambda c: z3.And(0 <= kp, kp <= o.f[QP].len), ("C04",)),
+                    Def(QG, V.list_slice_from(o.f[QG], kg), ("C04", "C05")),
+                    Def(RG, V.list_concat(o.f[RG], pg), ("C04", "C05")),
+                    Def(RE, V.list_concat(o.f[RE], pg), ("C02",)),
+                    Def(QP, V.list_slice_from(o.f[QP], kp), ("C04", "C05")),
+                    Def(RP, V.list_concat(o.f[RP], pp), ("C04", "C05")),
+                    Clause("Ri-len", lambda c: n.f[RI].len == o.f[RI].len + kg, ("C02",)),
+                    Clause("Ri-prefix", lambda c: V.forall_idx(o.f[RI], lambda i, y: n.f[RI].at(i).t == y.t, "Ri-prefix"),
+                           ("C02",)),
+                    Clause("ready-exactly-after-delay",
+                           lambda c: n.now == n.ghost.get("entry_now", o.now) + x.items[1].t, ("C11",)),
+                ]
+            C["move_to_ready_items"] = FnContract(
+                "move_to_ready_items", [("item", item_kind, None)], post=post_mover, entry_assume=mover_entry,
+                modifies=(ITEMS, RD, QG, RG, RE, RI, QP, RP), heap_modifies=("triggered",),
+                is_generator=True, props=("C01", "C02", "C04", "C11"))
+
         # ---- reserve_put_cancel
         def post_rpc(c):
             o, n = c.old, c.new
@@ -585,6 +880,8 @@ class StoreLib(LibBase):
         return {}
 
     def yield_spec(self, cls, fname, con, old, args):
+        if con.is_generator:
+            return MoverYields(self, cls, con, old, args)
         return None
 
     def frame(self, cls, con, old, new):
@@ -624,6 +921,8 @@ class StoreLib(LibBase):
                 amap[pn] = default
             else:
                 raise Unsupported("missing argument %s for %s" % (pn, name))
+        if con.is_generator:
+            return [(VGen(name, amap), st)]
         # callee assumes the (structural) invariant: it must hold at the call site
         if con.uses_inv:
             for nm, cl, props in self.invariant(cls, st, side="prove"):
@@ -669,6 +968,18 @@ class StoreLib(LibBase):
             e = s.fresh_obj("event")
             s.heap_set(e, "triggered", VBool(False))
             return [(e, s)]
+        if name == "timeout":
+            d = V.as_num(args[0])
+            # K-timeout: simpy raises ValueError for a negative delay
+            ex.ctx.oblige("call.timeout.delay-nonneg@L%d" % node.lineno, st, [d.t >= 0], "call-pre", node.lineno, ("C20",))
+            return [(VTimeout(d), st)]
+        if name == "process":
+            g = args[0]
+            if not isinstance(g, VGen):
+                raise Unsupported("env.process of %r" % (g,))
+            s = st.fork()
+            s.ghost.setdefault("spawned", []).append((g.name, g.args))
+            return [(s.fresh_obj("proc"), s)]
         raise Unsupported("env.%s() at line %d" % (name, node.lineno))
 
     def call_obj(self, ex, base, name, args, kw, st, node):
@@ -733,8 +1044,61 @@ class StoreLib(LibBase):
 
     def model_to_json(self, st, m, ob):
         """read the ENTRY state of the verified function out of a model."""
-        old = getattr(ob, "old", None)
-        return dump_state(self, st, m)
+        old = getattr(ob.ctx, "old", None)
+        d = {"entry": dump_state(self, old, m) if old is not None else None, "exit": dump_state(self, st, m)}
+        args = getattr(ob.ctx, "args", None) or {}
+        d["args"] = {k: dump_value(v, m) for k, v in args.items()}
+        return d
+
+
+class MoverYields:
+    """yield points of a store timer process.  At `yield env.timeout(d)`: the class invariant must hold (the
+    state is visible to every other process), then every field is havocked under the rely
+    (invariant holds; time advanced by exactly d; the item this process moves is still in transit, which is
+    guaranteed because no other code removes from `items`: frame obligation + A-distinct)."""
+
+    def __init__(self, lib, cls, con, old, args):
+        self.lib, self.cls, self.con, self.old, self.args = lib, cls, con, old, args
+
+    def on_yield(self, ex, ordinal, ynode, value, st):
+        lib, cls = self.lib, self.cls
+        p = PROFILES[cls]
+        if not isinstance(value, VTimeout):
+            raise Unsupported("yield of %r in a store process (line %d)" % (value, ynode.lineno))
+        ctx = ex.ctx
+        for nm, cl, props in lib.invariant(cls, st, side="prove"):
+            ctx.oblige("yield%d.inv.%s" % (ordinal, nm), st, [cl], "yield-inv", ynode.lineno, props)
+        exp = lib.expected_timeout(cls, self.con, ordinal, self.args, st)
+        if exp is not None:
+            ctx.oblige("yield%d.timeout-is-%s" % (ordinal, exp[0]), st, [value.delay.t == exp[1]], "yield",
+                       ynode.lineno, exp[2])
+        # resume: havoc under the rely
+        s = st.fork()
+        tag = "y%d_%d" % (ordinal, _ctr())
+        for nm, kind in lib.schema(cls).items():
+            if nm in lib.rely_stable(cls):
+                continue
+            s.f[nm] = V.mk_value("%s.%s" % (tag, nm), kind)
+        for attr in list(s.h):
+            base = attr.split("?")[0].split("#")[0]
+            if base in ("priority_to_put", "priority_to_get", "requesting_process", "length"):
+                continue      # immutable after creation (frame obligation)
+        s.heap_arr("triggered")
+        s.havoc_heap("triggered", tag)
+        nid = z3.Int(tag + ".next_id")
+        s.assume(nid >= s.next_id)
+        s.next_id = nid
+        s.now = st.now + value.delay.t
+        for nm, cl in lib.validity(cls, s, self.con):
+            s.assume(cl)
+        for nm, cl, props in lib.invariant(cls, s, side="assume"):
+            s.assume(cl)
+        for nm, cl in self.con.entry_assume(s, self.args):
+            s.assume(cl)
+        s.ghost["resume_old"] = None
+        s.ghost["resume_old"] = s.fork()
+        s.ghost["entry_now"] = st.now
+        return [(NONE, s)]
 
 
 class TriggerLoop:
@@ -803,6 +1167,15 @@ class TriggerLoop:
         return out
 
 
+def _spawn_ok(c, gname, pname, value):
+    sp = [x for x in c.new.ghost.get("spawned", []) if x[0] == gname]
+    sp0 = [x for x in c.old.ghost.get("spawned", []) if x[0] == gname]
+    new = sp[len(sp0):]
+    if len(new) != 1:
+        return False
+    return V.eq(new[0][1][pname], value)
+
+
 _c = [0]
 
 
@@ -816,7 +1189,36 @@ def _real(n):
     return z3.ToReal(n.t) if n.is_int else n.t
 
 
+def dump_value(v, m):
+    return _dumper(m)(v)
+
+
 def dump_state(lib, st, m):
+    val = _dumper(m)
+
+    def ev(t):
+        x = m.eval(t, model_completion=True)
+        try:
+            return x.as_long()
+        except Exception:
+            return str(x)
+    out = {"fields": {k: val(v) for k, v in st.f.items()}, "now": ev(st.now), "active_process": ev(st.active),
+           "next_id": ev(st.next_id)}
+    heap = {}
+    for attr in ("triggered", "requesting_process", "priority_to_put", "priority_to_get"):
+        if attr in st.h and st.h[attr] is not None:
+            ids = set()
+            for k, v in out["fields"].items():
+                if isinstance(v, list):
+                    for x in v:
+                        if isinstance(x, int):
+                            ids.add(x)
+            heap[attr] = {str(i): str(m.eval(z3.Select(st.h[attr], z3.IntVal(i)), model_completion=True)) for i in sorted(ids)}
+    out["heap"] = heap
+    return out
+
+
+def _dumper(m):
     def ev(t):
         v = m.eval(t, model_completion=True)
         try:
@@ -849,6 +1251,4 @@ def dump_state(lib, st, m):
         if isinstance(v, VNone):
             return None
         return repr(v)
-    out = {"fields": {k: val(v) for k, v in st.f.items()}, "now": ev(st.now), "active_process": ev(st.active),
-           "next_id": ev(st.next_id)}
-    return out
+    return val
